@@ -30,7 +30,8 @@
   verification tree): c with -n, c with a negated range, addr,$ beginning on the last line, `l` on a
   1-char unterminated line, N at end of input (POSIX: no print), missing newline of the last input line
   (output glue, G/H separator).
-  Not modelled: the script-text compiler (pickup_rex, get_text ...), R/W/Q/z/C commands, the k flag,
+  The script-text compiler (hawk_sed_comp, pickup_rex, get_text ...) is transcribed in HawkModel/SedParse.lean.
+  Not modelled in the executor: R/W/Q/z/C commands, the k flag,
   the I modifier, -b extended addresses (first~step, addr,+N, addr,~N, 0,/re/).  CR-LF stripping IS
   modelled (`trimLine`).  The fields `ropened`, `rline`, `unspec` of the state are bookkeeping for the
   evidence (they mark POSIX-unspecified situations) and are never read by the executor.
